@@ -134,6 +134,9 @@ def gen_case(rng, i, stratum):
         lines.append("@{early} = /late")
         tag = "error"
     att = rng.choice(["@{exec_path}", "@{exec_path}", "/usr/bin/lit", ""])
+    if tag == "ok" and stratum == "plain" and rng.random() < 0.15:
+        # a reference that is not the first thing in the attachment
+        att = rng.choice(["/srv/@{%s}", "/opt/{a,b}@{%s}/tool", "/srv/x@{%s}"]) % rng.choice(defined)
     hdr = "profile p%d%s {" % (i, (" " + att) if att else "")
     text = "\n".join(lines) + "\n" + hdr + "\n  /etc/x r,\n}\n"
     return text, tag, att
